@@ -201,9 +201,26 @@ class C37(Prop):
                  'Scala text of stats/LeveneHaldane.scala and stats/package.scala on every run; the same parsed expressions are also emitted over '
                  'IEEE Float and that Float model is TESTED against independent closed forms. Not exhibited: the JVM itself (no differential run), '
                  'rounding of library functions (commons-math3 / jdistlib), and the 1e-16 / 1e-12 / 1e-7 cut-offs, which are covered by test only')
-    level_text = ''
-    level_note = ''
-    budget = {'quick': 1500, 'thorough': 12000}
+    level_text = ('Proved in Lean 4 (27 theorems, induction, no bounds on the counts) about the exact rational model that is re-translated from the Scala text on '
+                  'every run, at tolerance scale 0: LeveneHaldane.apply accepts exactly 0 <= nA <= n; the mode formula returns a point of the support with '
+                  'maximal probability; the pRUfrom/pLUfrom recurrences generate the closed-form weights 2^k/(((nA-k)/2)! k! ((nB-k)/2)!) relative to the mode '
+                  'and are non-increasing; probability(k) = n! nA! nB! 2^k/(((nA-k)/2)! k! ((nB-k)/2)! (2n)!) for every integer k (normaliser identified via '
+                  'sum_k trinomial * 2^k = C(2n, nA)) and sums to 1; cumulativeProbability(n0, n1) = P(n0 < X <= n1) for ALL integers n0, n1; survivalFunction, '
+                  'rightMidP, leftMidP, exactMidP equal their definitions; every one of them lies in [0, 1]; hardyWeinbergTest returns (nA nB/(2n-1))/n and the '
+                  'one-sided / two-sided exact mid-p of the genotype counts; chiSquaredTest computes N(ad-bc)^2/((a+b)(c+d)(b+d)(a+c)) = sum (O-E)^2/E when no '
+                  'margin is zero and the odds ratio ad/bc; contingencyTableTest uses Fisher iff some observed cell < minCellCount; fisherExactTest rejects '
+                  'negative cells, answers NaN iff a margin is zero, and (library instantiated by the closed-form hypergeometric pmf) its two-sided p-value is '
+                  'the total probability of the outcomes at most as probable as the observed one over max(0,a-d)..min(a+b,a+c), its one-sided p-values are '
+                  'P(X <= a) / P(X >= a); all lie in [0, 1] (Vandermonde).')
+    level_note = ('Partial, T tie only: the engine is never run (no Scala toolchain, no jar) and there is no differential run against the JVM; the tie to /repo is '
+                  'the translator (Scala text -> Lean, regenerated and re-proved on every run) plus the doctest outputs recorded in functions.py. NOT proved, '
+                  'only TESTED on the translated Float model against independent big-integer closed forms (relative 1e-9; exhaustive small ranges + random '
+                  'counts to 2*10^4 quick / 2*10^5 thorough): the effect of the cut-offs 1e-16 (takeWhile truncation), 1e-12 (D_== in exactMidP), 1e-7 (relErr) and '
+                  'of double rounding. Not exhibited at all: commons-math3 HypergeometricDistribution and jdistlib ChiSquare (parameters; the Float test uses a '
+                  'stand-in pmf and compares the chi-squared STATISTIC, not its tail probability), math.log/exp of dnhyper (pinned text, algebraic meaning), the '
+                  'confidence interval / odds-ratio MLE of fisherExactTest (uniroot; sliced away), 32-bit overflow of the counts. Two open findings: one-sided HWE '
+                  'mid-p and Fisher p-values exceed 1 by a few ulp.')
+    budget = {'quick': 1500, 'thorough': 25000}
     search_budget = {'quick': 1500, 'thorough': 6000}
     rule = ('case = one driver line evaluated on the translated Float model (hwe r h v oneSided | lh n nA k | fet a b c d alternative | chi a b c d | '
             'ctt a b c d minCellCount [+ the chi and fet lines of the same table]) or a doctest recorded in functions.py. Streams: exhaustive small '
@@ -351,19 +368,26 @@ class C37(Prop):
                        self._case('margin', f'ctt {t} {n + 1}', f'chi {t}', f'fet {t} two.sided')]
         return cs
 
+    BIG = 20000      # above this size one margin / the minor-allele count is kept <= 4000 (cost of the big-integer oracle)
+
     def _random(self, rng, top):
         r = rng.random()
-        size = rng.choice([30, 120, 121, 400, 2000, top // 4, top])
+        size = rng.choice([30, 120, 121, 400, 400, 2000, 2000, 2000, min(top, self.BIG) // 4, min(top, self.BIG)])
+        if top > self.BIG and rng.random() < 0.03:
+            size = rng.choice([top // 4, top])
+        big = size > self.BIG
         if r < 0.3:
             n = rng.randint(1, size)
             shape = rng.random()
+            cap = 4000 if big else n
             if shape < 0.4:                      # near equilibrium for a random allele frequency
                 p = rng.random() * 0.5
-                nA = max(0, min(n, round(2 * n * p)))
+                nA = max(0, min(n, cap, round(2 * n * p)))
+                p = nA / (2 * n)
                 het = max(nA % 2, min(nA, round(2 * n * p * (1 - p)) // 2 * 2 + nA % 2))
                 het = max(nA % 2, min(nA, het + 2 * rng.randint(-3, 3)))
             elif shape < 0.7:                    # anywhere on the support
-                nA = rng.randint(0, n)
+                nA = rng.randint(0, min(n, cap))
                 het = rng.randrange(nA % 2, nA + 1, 2)
             elif shape < 0.85:                   # rare allele
                 nA = rng.randint(0, min(n, 12))
@@ -380,12 +404,16 @@ class C37(Prop):
             return self._case('rand-hwe', f'hwe {trip[0]} {trip[1]} {trip[2]} {rng.randint(0, 1)}')
         if r < 0.5:
             n = rng.randint(1, size)
-            nA = rng.choice([rng.randint(0, n), rng.randint(0, min(n, 20)), n, n - rng.randint(0, min(n, 3))])
+            cap = 4000 if big else n
+            nA = rng.choice([rng.randint(0, min(n, cap)), rng.randint(0, min(n, 20)), min(n, cap), min(n, cap) - rng.randint(0, min(n, 3))])
             k = rng.choice([rng.randint(-2, nA + 2), rng.randrange(nA % 2, nA + 1, 2)])
             return self._case('rand-lh', f'lh {n} {nA} {k}')
         sz = max(2, min(size, top // 2))
         shape = rng.random()
-        if shape < 0.5:
+        if big:
+            a, b = rng.randint(0, 2000), rng.randint(0, 2000)       # small first row, huge second row
+            c, d = rng.randint(0, sz), rng.randint(0, sz)
+        elif shape < 0.5:
             a, b, c, d = (rng.randint(0, sz) for _ in range(4))
         elif shape < 0.8:
             a, b, c, d = rng.randint(0, 12), rng.randint(0, sz), rng.randint(0, 12), rng.randint(0, sz)
